@@ -201,10 +201,21 @@ def check(case):
                 else:
                     seq.append(r[pos].encode("utf-8", "surrogateescape"))
             if seq is not None:
-                bad = [i for i in range(len(seq) - 1) if (seq[i] < seq[i + 1] if o["desc"] else seq[i] > seq[i + 1])]
-                if bad:
+                def sorted_under(vals):
+                    return all((vals[i] >= vals[i + 1]) if o["desc"] else (vals[i] <= vals[i + 1]) for i in range(len(vals) - 1))
+                ok = sorted_under(seq)
+                if not is_int:
+                    # a text key whose values ALL look like integers may also be ordered numerically; a column that
+                    # mixes both kinds must still come out sorted under ONE order (text) - not a bit of each
+                    digits = [x.strip().isdigit() for x in seq]
+                    if seq and all(digits):
+                        out.classes.append("order-by-text-key/all-numeric-looking")
+                        ok = ok or sorted_under([int(x) for x in seq])
+                    elif any(digits):
+                        out.classes.append("order-by-text-key/mixed-numeric-looking")
+                if not ok:
                     out.add("C08/group-order/%s/%s" % ("int" if is_int else "text", "desc" if o["desc"] else "asc"), query=gq,
-                            column=sel_text(case, o["item"]), values=[str(x) for x in seq][:12])
+                            column=sel_text(case, o["item"]), values=[x.decode("utf-8", "replace") if isinstance(x, bytes) else str(x) for x in seq][:16])
         big = any(len(m) >= 2 for m in parts.values())
         out.nontrivial = (len(parts) >= 3 and big) or len(keys) == 2
         out.classes = sorted({"groups=%s" % ("0" if not parts else "1-2" if len(parts) < 3 else "3-8" if len(parts) <= 8 else "9+"),
@@ -232,4 +243,10 @@ PINNED = [
                     "sel": [["k", 0], ["a", 0], ["a", 1], ["a", 2]], "order": {"item": ["a", 1], "desc": True, "positional": False}}),
     ("two-keys", {"tree": _tree(), "keys": ["is_dir", "dir"], "where": None, "aggs": [_a("max", "size"), _a("count", "size")],
                   "sel": [["a", 0], ["k", 1], ["k", 0], ["a", 1]], "order": {"item": ["k", 1], "desc": False, "positional": True}}),
+    ("mixed-numeric-looking-keys", {"tree": {"f." + e: {"t": "f", "c": ""} for e in ["2", "10", "1x", "9", "9a", "100", "1", "a", "05", "5z", "50", "007", "7", "70", "7a"]},
+                                    "keys": ["ext"], "where": None, "aggs": [_a("count", "*")], "sel": [["k", 0], ["a", 0]],
+                                    "order": {"item": ["k", 0], "desc": False, "positional": False}}),
+    ("mixed-numeric-looking-keys-many", {"tree": {"h%d.%s" % (i, e): {"t": "f", "c": ""} for i in range(1, 41) for e in (str(i), "%dx" % i)},
+                                         "keys": ["ext"], "where": None, "aggs": [_a("count", "*")], "sel": [["k", 0], ["a", 0]],
+                                         "order": {"item": ["k", 0], "desc": True, "positional": True}}),
 ]
